@@ -631,7 +631,10 @@ class Translator:
                 return cx.vars[r['id']][0]
             raise Unsupported(f'reference to unknown variable {r.get("name")} in {cx.cname}')
         if rk == 'EnumConstantDecl':
-            d = self.byid.get(r['id'])
+            # only a declaration of the SAME dump is trusted by id: an enumerator of another instantiation of the trait class
+            # has the same name and type, so an id that resolves into another dump cannot be validated (it once yielded
+            # index -1 for index 1 after an unrelated source edit had shifted clang's heap); other dumps go by owner
+            d = dict.get(self.byid, r['id'])
             if d is not None:
                 for c in d.get('inner', []):
                     v = self.const_value(c)
@@ -1084,8 +1087,10 @@ class Translator:
         a = [self.addr_of(x, cx) for x in args]
         rt = self.ctype(self.qt(n))
         cn = f'{ft.c}_call'
+        ps = [f'{ft.c} *f'] + [f'{self.ctype(self.qt(self.skip(x))).c} *a{i}' for i, x in enumerate(args)] + self.ghost_decls()
+        if self.cfg.get('env_overloads') and cn in self.externs and self.externs[cn] != f'{rt.c} {cn}({", ".join(ps)})':
+            cn = cn + '__' + '_'.join(re.sub(r'\W+', '', q.split()[0]) for q in ps[1:])      # overloaded operator(): one stub per signature
         if cn not in self.externs:
-            ps = [f'{ft.c} *f'] + [f'{self.ctype(self.qt(self.skip(x))).c} *a{i}' for i, x in enumerate(args)] + self.ghost_decls()
             self.externs[cn] = f'{rt.c} {cn}({", ".join(ps)})'
         return f'{cn}({", ".join([optr] + a + self.ghost_args())})'
 
@@ -1282,13 +1287,28 @@ class Translator:
     def find_free_function(self, name, qual):
         """free function template instantiation by name and instantiated type (references across AST dumps)"""
         if not hasattr(self, '_ffidx'):
-            self._ffidx = {}
+            self._ffidx = {}; self._ffbody = {}; self._ffamb = set()
             def walk(n):
                 if isinstance(n, dict):
                     if n.get('kind') == 'FunctionDecl' and self.has_body(n) and any(a.get('kind') == 'TemplateArgument' for a in n.get('inner', [])):
                         self._ffidx.setdefault((n.get('name'), n.get('type', {}).get('qualType')), n)
+                    if n.get('kind') == 'CXXMethodDecl' and n.get('storageClass') == 'static' and self.has_body(n) and self.cfg.get('static_methods_by_type'):
+                        # static member function (template instantiation) of a helper class template, e.g. ForEachMixins<...>::forEach:
+                        # found by name and instantiated type when node ids do not agree across dumps; several definitions
+                        # with that name and type are accepted only if their bodies are the same text
+                        k = (n.get('name'), n.get('type', {}).get('qualType'))
+                        def norm(x):
+                            if isinstance(x, dict): return {a: norm(b) for a, b in x.items() if a not in ('id', 'loc', 'range', 'referencedDecl', 'previousDecl', 'parentDeclContextId')}
+                            if isinstance(x, list): return [norm(y) for y in x]
+                            return x
+                        body = json.dumps(norm([c for c in n.get('inner', []) if c.get('kind') == 'CompoundStmt']), sort_keys=True)
+                        cur = self._ffidx.get(k)
+                        if cur is None: self._ffidx[k] = n; self._ffbody[k] = body
+                        elif self._ffbody.get(k) != body: self._ffamb.add(k)
                     for c in n.get('inner', []): walk(c)
             for d in self.docs: walk(d)
+        if (name, qual) in self._ffamb:
+            raise Unsupported(f'call of {name} ({qual}) cannot be resolved to ONE definition across AST dumps')
         return self._ffidx.get((name, qual))
 
     def make_shared(self, rt, args, n, cx):
